@@ -236,6 +236,283 @@ var vC12ExecClasses = []string{
 	"disc-dest", "disc-own", "disc-name", "malformed", "unknown-chain",
 }
 
+// options of the observation generator (zero value + fill = -1: everything drawn at random)
+type vC12GenOpt struct {
+	bad    string // injected class; "" = drawn
+	fill   int    // 0..2; -1 = drawn
+	prefer uint64 // chain the injected / conformant fields should be about when possible; 0 = none
+	force  bool   // conformant chain subsets include prefer whenever the observer reads it
+}
+
+// one generated execute ValidateObservation case: observation of observer o under role map c, and the round it is validated in
+type vC12ExecCase struct {
+	o                int
+	bad              string
+	fill, pstate     int
+	discOn, initd    bool
+	prevB, ob        []byte
+	obsS             string
+	nfields, nunread int
+}
+
+func (cs *vC12ExecCase) rctx() string { return cTup(cNi(cs.pstate), cBool(cs.discOn), cBool(cs.initd)) }
+func (cs *vC12ExecCase) show(c *vC12Cfg, verdict string) map[string]any {
+	return map[string]any{"oracles": c.Oracles, "readers": c.Readers, "dest": c.Dest, "observer": cs.o,
+		"injected": cs.bad, "fill": cs.fill, "prev_state": cs.pstate, "discovery_enabled": cs.discOn, "contracts_initialized": cs.initd,
+		"observation": string(cs.ob), "accepted": verdict}
+}
+func (cs *vC12ExecCase) verdict(ctx context.Context, p *Plugin) (v string) {
+	defer func() {
+		if e := recover(); e != nil {
+			v = "panic"
+		}
+	}()
+	if err := p.ValidateObservation(ctx, ocr3types.OutcomeContext{SeqNr: 7, PreviousOutcome: cs.prevB}, types.Query{},
+		types.AttributedObservation{Observation: cs.ob, Observer: commontypes.OracleID(cs.o)}); err != nil {
+		return "false"
+	}
+	return "true"
+}
+
+func vC12GenExecCase(t *testing.T, r *vRand, c *vC12Cfg, o int, opt vC12GenOpt) *vC12ExecCase {
+	rd, unread := vC12ReadChains(c, o)
+	// opt.prefer: the chain the injected field / the conformant fields should be about when possible
+	pickUnread := func() uint64 {
+		x := vPick(r, unread)
+		for _, u := range unread {
+			if u == opt.prefer {
+				return u
+			}
+		}
+		return x
+	}
+	sub := func(xs []uint64) []uint64 {
+		out := vC12Subset(r, xs)
+		if !opt.force {
+			return out
+		}
+		for _, u := range out {
+			if u == opt.prefer {
+				return out
+			}
+		}
+		for _, u := range xs {
+			if u == opt.prefer {
+				return append(out, u)
+			}
+		}
+		return out
+	}
+	readsDest := c.known(o) && c.reads(o, c.Dest)
+	bad := vPick(r, vC12ExecClasses)
+	fill := r.Intn(3)
+	if opt.bad != "" {
+		bad = opt.bad
+	}
+	if opt.fill >= 0 {
+		fill = opt.fill
+	}
+	want := func() bool { return fill == 2 || (fill == 1 && r.Bool()) }
+	malformed := bad == "malformed"
+	roots := vNewIntern()
+
+	obs := exectypes.Observation{}
+	// ---- commit reports (destination data, keyed by source chain)
+	var crS []string
+	var crChains []uint64
+	if want() && readsDest {
+		crChains = vC12Subset(r, []uint64{5, 6, 11})
+	}
+	if bad == "commitreports" || (malformed && r.Bool()) {
+		crChains = vC12Dedup(append(crChains, vPick(r, []uint64{5, 6})))
+	}
+	if bad == "unknown-chain" && r.Chance(1, 3) {
+		crChains = vC12Dedup(append(crChains, 77)) // a chain without configured F
+	}
+	if len(crChains) > 0 {
+		obs.CommitReports = exectypes.CommitObservations{}
+	}
+	nreports := 0
+	for _, ch := range crChains {
+		k := r.Range(0, 3)
+		if bad == "commitreports" && k == 0 && r.Bool() {
+			k = 1
+		}
+		var lst []exectypes.CommitData
+		var lstS []string
+		start := uint64(r.Range(1, 5))
+		for x := 0; x < k; x++ {
+			end := start + uint64(r.Range(0, 3))
+			cd := exectypes.CommitData{SourceChain: cciptypes.ChainSelector(ch), MerkleRoot: cciptypes.Bytes32{byte(ch), byte(x + 1)},
+				SequenceNumberRange: cciptypes.NewSeqNumRange(cciptypes.SeqNum(start), cciptypes.SeqNum(end))}
+			if r.Bool() {
+				cd.ExecutedMessages = append(cd.ExecutedMessages, cciptypes.SeqNum(start+uint64(r.Intn(int(end-start)+1))))
+			}
+			if malformed && r.Chance(1, 3) {
+				switch r.Intn(4) {
+				case 0:
+					if x > 0 {
+						cd.MerkleRoot = lst[0].MerkleRoot
+					}
+				case 1:
+					cd.ExecutedMessages = append(cd.ExecutedMessages, cciptypes.SeqNum(end+1))
+				case 2:
+					if start > 1 {
+						cd.ExecutedMessages = append(cd.ExecutedMessages, cciptypes.SeqNum(start-1))
+					}
+				default:
+					if x > 0 {
+						// overlap exactly at the boundary of the previous report
+						cd.SequenceNumberRange = cciptypes.NewSeqNumRange(lst[x-1].SequenceNumberRange.End(), cciptypes.SeqNum(end))
+					}
+				}
+			}
+			lst = append(lst, cd)
+			ex := make([]uint64, len(cd.ExecutedMessages))
+			for y, s := range cd.ExecutedMessages {
+				ex[y] = uint64(s)
+			}
+			lstS = append(lstS, cApp("mkCdata", cN(roots.Id(cd.MerkleRoot.String())), cN(uint64(cd.SequenceNumberRange.Start())),
+				cN(uint64(cd.SequenceNumberRange.End())), cListN(ex)))
+			start = end + 1 + uint64(r.Intn(2))
+		}
+		nreports += k
+		obs.CommitReports[cciptypes.ChainSelector(ch)] = lst
+		crS = append(crS, cPair(cN(ch), cList(lstS)))
+	}
+	// ---- keyed count maps
+	type kc struct {
+		ch uint64
+		n  int
+	}
+	keyed := func(chains []uint64, minN int) []kc {
+		var out []kc
+		for _, ch := range vC12Dedup(chains) {
+			out = append(out, kc{ch, r.Range(minN, 3)})
+		}
+		return out
+	}
+	kcS := func(xs []kc) string {
+		s := make([]string, len(xs))
+		for i, x := range xs {
+			s[i] = cPair(cN(x.ch), cNi(x.n))
+		}
+		return cList(s)
+	}
+	var msgs, toks, nonces []kc
+	if want() {
+		msgs = keyed(sub(rd), 0)
+	}
+	if want() {
+		toks = keyed(sub(rd), 0)
+	}
+	if want() && readsDest {
+		nonces = keyed(vC12Subset(r, []uint64{5, 6, 11}), 0)
+	}
+	switch bad {
+	case "messages":
+		msgs = append(msgs, kc{pickUnread(), r.Range(1, 2)})
+	case "messages-empty":
+		msgs = append(msgs, kc{pickUnread(), 0}) // empty inner map: not an observation about that chain
+	case "tokendata":
+		toks = append(toks, kc{pickUnread(), r.Range(1, 2)})
+	case "nonces":
+		nonces = append(nonces, kc{vPick(r, []uint64{5, 6}), r.Range(1, 2)})
+	case "unknown-chain":
+		// keys of chains without configured F, empty inner maps: rejected since F13d although no role is violated
+		switch r.Intn(3) {
+		case 0:
+			msgs = append(msgs, kc{77, 0})
+		case 1:
+			toks = append(toks, kc{77, 0})
+		default:
+			nonces = append(nonces, kc{77, 0}) // nonce keys are not checked
+		}
+	}
+	dedupKC := func(xs []kc) []kc {
+		seen := map[uint64]bool{}
+		var out []kc
+		for i := len(xs) - 1; i >= 0; i-- { // the injected entry wins
+			if !seen[xs[i].ch] {
+				seen[xs[i].ch] = true
+				out = append([]kc{xs[i]}, out...)
+			}
+		}
+		return out
+	}
+	msgs, toks, nonces = dedupKC(msgs), dedupKC(toks), dedupKC(nonces)
+	if len(msgs) > 0 {
+		obs.Messages = exectypes.MessageObservations{}
+	}
+	keysOK := true
+	for _, m := range msgs {
+		inner := map[cciptypes.SeqNum]cciptypes.Message{}
+		for k := 0; k < m.n; k++ {
+			hdrSeq := cciptypes.SeqNum(k + 1)
+			if malformed && r.Chance(1, 4) {
+				hdrSeq += 7 // filed under a key different from its header
+				keysOK = false
+			}
+			inner[cciptypes.SeqNum(k+1)] = cciptypes.Message{Header: cciptypes.RampMessageHeader{
+				SourceChainSelector: cciptypes.ChainSelector(m.ch), SequenceNumber: hdrSeq, MessageID: cciptypes.Bytes32{byte(k + 1)}}}
+		}
+		obs.Messages[cciptypes.ChainSelector(m.ch)] = inner
+	}
+	if len(toks) > 0 {
+		obs.TokenData = exectypes.TokenDataObservations{}
+	}
+	for _, m := range toks {
+		inner := map[cciptypes.SeqNum]exectypes.MessageTokenData{}
+		for k := 0; k < m.n; k++ {
+			inner[cciptypes.SeqNum(k+1)] = exectypes.NewMessageTokenData()
+		}
+		obs.TokenData[cciptypes.ChainSelector(m.ch)] = inner
+	}
+	if len(nonces) > 0 {
+		obs.Nonces = exectypes.NonceObservations{}
+	}
+	for _, m := range nonces {
+		inner := map[string]uint64{}
+		for k := 0; k < m.n; k++ {
+			inner[string(rune('a'+k))] = uint64(k)
+		}
+		obs.Nonces[cciptypes.ChainSelector(m.ch)] = inner
+	}
+	costly := 0
+	if (want() && readsDest && len(msgs) > 0) || bad == "costly" {
+		costly = r.Range(1, 2)
+	}
+	for k := 0; k < costly; k++ {
+		obs.CostlyMessages = append(obs.CostlyMessages, cciptypes.Bytes32{byte(k + 1)})
+	}
+	ca, dS := vC12Disc(r, c, rd, readsDest, fill, bad, unread)
+	obs.Contracts = dt.Observation{Addresses: ca}
+
+	ob, err := obs.Encode()
+	if err != nil {
+		t.Fatal(err)
+	}
+	// ---- round context: previous outcome state, discovery processor present or not, contracts initialised or not
+	pstate := r.Intn(6) // 0 Unknown, 1 Initialized, 2 GetCommitReports, 3 GetMessages, 4 Filter, 5 no previous outcome
+	discOn := !r.Chance(1, 5)
+	initd := r.Bool()
+	var prevB []byte
+	if pstate < 5 {
+		prev := exectypes.Outcome{State: []exectypes.PluginState{exectypes.Unknown, exectypes.Initialized, exectypes.GetCommitReports,
+			exectypes.GetMessages, exectypes.Filter}[pstate]}
+		if pstate >= 2 {
+			prev.PendingCommitReports = []exectypes.CommitData{{SourceChain: 5, MerkleRoot: cciptypes.Bytes32{9},
+				SequenceNumberRange: cciptypes.NewSeqNumRange(1, 3)}}
+		}
+		if prevB, err = prev.Encode(); err != nil {
+			t.Fatal(err)
+		}
+	}
+	return &vC12ExecCase{o: o, bad: bad, fill: fill, pstate: pstate, discOn: discOn, initd: initd, prevB: prevB, ob: ob,
+		obsS: cApp("mkEobs", cList(crS), kcS(msgs), cBool(keysOK), kcS(toks), cNi(costly), kcS(nonces), dS),
+		nfields: nreports + len(msgs) + len(toks) + len(nonces) + costly + len(ca), nunread: len(unread)}
+}
+
 func TestVerif_C12_exec(t *testing.T) {
 	ctx := context.Background()
 	r := vNewRand(vSeed() + 1202)
@@ -245,232 +522,18 @@ func TestVerif_C12_exec(t *testing.T) {
 	for i := 0; i < n; i++ {
 		c := vC12GenCfg(r)
 		o := c.pickObserver(r)
-		rd, unread := vC12ReadChains(c, o)
-		readsDest := c.known(o) && c.reads(o, c.Dest)
-		bad := vPick(r, vC12ExecClasses)
-		fill := r.Intn(3)
-		want := func() bool { return fill == 2 || (fill == 1 && r.Bool()) }
-		malformed := bad == "malformed"
-		roots := vNewIntern()
-
-		obs := exectypes.Observation{}
-		// ---- commit reports (destination data, keyed by source chain)
-		var crS []string
-		var crChains []uint64
-		if want() && readsDest {
-			crChains = vC12Subset(r, []uint64{5, 6, 11})
-		}
-		if bad == "commitreports" || (malformed && r.Bool()) {
-			crChains = vC12Dedup(append(crChains, vPick(r, []uint64{5, 6})))
-		}
-		if bad == "unknown-chain" && r.Chance(1, 3) {
-			crChains = vC12Dedup(append(crChains, 77)) // a chain without configured F
-		}
-		if len(crChains) > 0 {
-			obs.CommitReports = exectypes.CommitObservations{}
-		}
-		nreports := 0
-		for _, ch := range crChains {
-			k := r.Range(0, 3)
-			if bad == "commitreports" && k == 0 && r.Bool() {
-				k = 1
-			}
-			var lst []exectypes.CommitData
-			var lstS []string
-			start := uint64(r.Range(1, 5))
-			for x := 0; x < k; x++ {
-				end := start + uint64(r.Range(0, 3))
-				cd := exectypes.CommitData{SourceChain: cciptypes.ChainSelector(ch), MerkleRoot: cciptypes.Bytes32{byte(ch), byte(x + 1)},
-					SequenceNumberRange: cciptypes.NewSeqNumRange(cciptypes.SeqNum(start), cciptypes.SeqNum(end))}
-				if r.Bool() {
-					cd.ExecutedMessages = append(cd.ExecutedMessages, cciptypes.SeqNum(start+uint64(r.Intn(int(end-start)+1))))
-				}
-				if malformed && r.Chance(1, 3) {
-					switch r.Intn(4) {
-					case 0:
-						if x > 0 {
-							cd.MerkleRoot = lst[0].MerkleRoot
-						}
-					case 1:
-						cd.ExecutedMessages = append(cd.ExecutedMessages, cciptypes.SeqNum(end+1))
-					case 2:
-						if start > 1 {
-							cd.ExecutedMessages = append(cd.ExecutedMessages, cciptypes.SeqNum(start-1))
-						}
-					default:
-						if x > 0 {
-							// overlap exactly at the boundary of the previous report
-							cd.SequenceNumberRange = cciptypes.NewSeqNumRange(lst[x-1].SequenceNumberRange.End(), cciptypes.SeqNum(end))
-						}
-					}
-				}
-				lst = append(lst, cd)
-				ex := make([]uint64, len(cd.ExecutedMessages))
-				for y, s := range cd.ExecutedMessages {
-					ex[y] = uint64(s)
-				}
-				lstS = append(lstS, cApp("mkCdata", cN(roots.Id(cd.MerkleRoot.String())), cN(uint64(cd.SequenceNumberRange.Start())),
-					cN(uint64(cd.SequenceNumberRange.End())), cListN(ex)))
-				start = end + 1 + uint64(r.Intn(2))
-			}
-			nreports += k
-			obs.CommitReports[cciptypes.ChainSelector(ch)] = lst
-			crS = append(crS, cPair(cN(ch), cList(lstS)))
-		}
-		// ---- keyed count maps
-		type kc struct {
-			ch uint64
-			n  int
-		}
-		keyed := func(chains []uint64, minN int) []kc {
-			var out []kc
-			for _, ch := range vC12Dedup(chains) {
-				out = append(out, kc{ch, r.Range(minN, 3)})
-			}
-			return out
-		}
-		kcS := func(xs []kc) string {
-			s := make([]string, len(xs))
-			for i, x := range xs {
-				s[i] = cPair(cN(x.ch), cNi(x.n))
-			}
-			return cList(s)
-		}
-		var msgs, toks, nonces []kc
-		if want() {
-			msgs = keyed(vC12Subset(r, rd), 0)
-		}
-		if want() {
-			toks = keyed(vC12Subset(r, rd), 0)
-		}
-		if want() && readsDest {
-			nonces = keyed(vC12Subset(r, []uint64{5, 6, 11}), 0)
-		}
-		switch bad {
-		case "messages":
-			msgs = append(msgs, kc{vPick(r, unread), r.Range(1, 2)})
-		case "messages-empty":
-			msgs = append(msgs, kc{vPick(r, unread), 0}) // empty inner map: not an observation about that chain
-		case "tokendata":
-			toks = append(toks, kc{vPick(r, unread), r.Range(1, 2)})
-		case "nonces":
-			nonces = append(nonces, kc{vPick(r, []uint64{5, 6}), r.Range(1, 2)})
-		case "unknown-chain":
-			// keys of chains without configured F, empty inner maps: rejected since F13d although no role is violated
-			switch r.Intn(3) {
-			case 0:
-				msgs = append(msgs, kc{77, 0})
-			case 1:
-				toks = append(toks, kc{77, 0})
-			default:
-				nonces = append(nonces, kc{77, 0}) // nonce keys are not checked
-			}
-		}
-		dedupKC := func(xs []kc) []kc {
-			seen := map[uint64]bool{}
-			var out []kc
-			for i := len(xs) - 1; i >= 0; i-- { // the injected entry wins
-				if !seen[xs[i].ch] {
-					seen[xs[i].ch] = true
-					out = append([]kc{xs[i]}, out...)
-				}
-			}
-			return out
-		}
-		msgs, toks, nonces = dedupKC(msgs), dedupKC(toks), dedupKC(nonces)
-		if len(msgs) > 0 {
-			obs.Messages = exectypes.MessageObservations{}
-		}
-		keysOK := true
-		for _, m := range msgs {
-			inner := map[cciptypes.SeqNum]cciptypes.Message{}
-			for k := 0; k < m.n; k++ {
-				hdrSeq := cciptypes.SeqNum(k + 1)
-				if malformed && r.Chance(1, 4) {
-					hdrSeq += 7 // filed under a key different from its header
-					keysOK = false
-				}
-				inner[cciptypes.SeqNum(k+1)] = cciptypes.Message{Header: cciptypes.RampMessageHeader{
-					SourceChainSelector: cciptypes.ChainSelector(m.ch), SequenceNumber: hdrSeq, MessageID: cciptypes.Bytes32{byte(k + 1)}}}
-			}
-			obs.Messages[cciptypes.ChainSelector(m.ch)] = inner
-		}
-		if len(toks) > 0 {
-			obs.TokenData = exectypes.TokenDataObservations{}
-		}
-		for _, m := range toks {
-			inner := map[cciptypes.SeqNum]exectypes.MessageTokenData{}
-			for k := 0; k < m.n; k++ {
-				inner[cciptypes.SeqNum(k+1)] = exectypes.NewMessageTokenData()
-			}
-			obs.TokenData[cciptypes.ChainSelector(m.ch)] = inner
-		}
-		if len(nonces) > 0 {
-			obs.Nonces = exectypes.NonceObservations{}
-		}
-		for _, m := range nonces {
-			inner := map[string]uint64{}
-			for k := 0; k < m.n; k++ {
-				inner[string(rune('a'+k))] = uint64(k)
-			}
-			obs.Nonces[cciptypes.ChainSelector(m.ch)] = inner
-		}
-		costly := 0
-		if (want() && readsDest && len(msgs) > 0) || bad == "costly" {
-			costly = r.Range(1, 2)
-		}
-		for k := 0; k < costly; k++ {
-			obs.CostlyMessages = append(obs.CostlyMessages, cciptypes.Bytes32{byte(k + 1)})
-		}
-		ca, dS := vC12Disc(r, c, rd, readsDest, fill, bad, unread)
-		obs.Contracts = dt.Observation{Addresses: ca}
-
-		ob, err := obs.Encode()
-		if err != nil {
-			t.Fatal(err)
-		}
-		// ---- round context: previous outcome state, discovery processor present or not, contracts initialised or not
-		pstate := r.Intn(6) // 0 Unknown, 1 Initialized, 2 GetCommitReports, 3 GetMessages, 4 Filter, 5 no previous outcome
-		discOn := !r.Chance(1, 5)
-		initd := r.Bool()
-		var prevB []byte
-		if pstate < 5 {
-			prev := exectypes.Outcome{State: []exectypes.PluginState{exectypes.Unknown, exectypes.Initialized, exectypes.GetCommitReports,
-				exectypes.GetMessages, exectypes.Filter}[pstate]}
-			if pstate >= 2 {
-				prev.PendingCommitReports = []exectypes.CommitData{{SourceChain: 5, MerkleRoot: cciptypes.Bytes32{9},
-					SequenceNumberRange: cciptypes.NewSeqNumRange(1, 3)}}
-			}
-			if prevB, err = prev.Encode(); err != nil {
-				t.Fatal(err)
-			}
-		}
+		cs := vC12GenExecCase(t, r, c, o, vC12GenOpt{fill: -1})
 		p := vC12Plugin(c, vPick(r, c.Oracles))
-		if !discOn {
+		if !cs.discOn {
 			p.discovery = nil
 		}
-		p.contractsInitialized = initd
-		verdict := func() (v string) {
-			defer func() {
-				if e := recover(); e != nil {
-					v = "panic"
-				}
-			}()
-			if err := p.ValidateObservation(ctx, ocr3types.OutcomeContext{SeqNr: 7, PreviousOutcome: prevB}, types.Query{},
-				types.AttributedObservation{Observation: ob, Observer: commontypes.OracleID(o)}); err != nil {
-				return "false"
-			}
-			return "true"
-		}()
+		p.contractsInitialized = cs.initd
+		verdict := cs.verdict(ctx, p)
 		if verdict == "panic" {
 			t.Fatalf("ValidateObservation panicked on case %d", i)
 		}
-		in := cTup(c.coq(), cTup(cNi(pstate), cBool(discOn), cBool(initd)), cNi(o), cApp("mkEobs", cList(crS), kcS(msgs), cBool(keysOK), kcS(toks), cNi(costly), kcS(nonces), dS))
-		nfields := nreports + len(msgs) + len(toks) + len(nonces) + costly + len(ca)
-		sink.Emit("C12_exec", bad, nfields > 0 && len(unread) > 1, cPair(in, verdict),
-			map[string]any{"oracles": c.Oracles, "readers": c.Readers, "dest": c.Dest, "observer": o,
-				"injected": bad, "fill": fill, "prev_state": pstate, "discovery_enabled": discOn, "contracts_initialized": initd,
-				"observation": string(ob), "accepted": verdict})
+		in := cTup(c.coq(), cs.rctx(), cNi(o), cs.obsS)
+		sink.Emit("C12_exec", cs.bad, cs.nfields > 0 && cs.nunread > 1, cPair(in, verdict), cs.show(c, verdict))
 	}
 }
 
